@@ -54,3 +54,9 @@ pub mod websocket {
     /// The name of the Warp protocol for negotiation web-socket connections.
     pub const WARP: &str = "warp0";
 }
+
+/// Re-exports used by the external verification harness (feature `verif-hooks`, off by default).
+#[cfg(feature = "verif-hooks")]
+pub mod verif_hooks {
+    pub use crate::task::verif_envelopes::*;
+}
